@@ -60,6 +60,15 @@ var c20badConfigs = map[string]string{
 	"unknown-version": `{"configVersion":"v7","onStartup":1}`,
 }
 
+func seenIsDir(dirs []string, d string) bool {
+	for _, x := range dirs {
+		if x == d {
+			return true
+		}
+	}
+	return false
+}
+
 func TestC20(t *testing.T) {
 	e := vlib.GetEnv()
 	n := e.Pick(160, 60000)
@@ -101,6 +110,29 @@ func TestC20(t *testing.T) {
 			}
 			seen[rel] = true
 			files = append(files, c20file{rel, modes[rng.IntN(len(modes))]})
+		}
+		if c.Index%4 == 1 {
+			// a directory next to entries named like it plus a character that sorts before '/': a directory
+			// walk visits d/... first, the lexical order of the relative paths puts d-x/... and d.sh first
+			d := []string{"a", "b", "sub", "001-dir"}[rng.IntN(4)]
+			parent := dirs[rng.IntN(len(dirs))]
+			if parent != "" {
+				d = parent + "/" + d
+			}
+			if !seen[d] || seenIsDir(dirs, d) {
+				for _, dd := range []string{d, d + "-x"} {
+					if !seenIsDir(dirs, dd) && !seen[dd] {
+						dirs = append(dirs, dd)
+						seen[dd] = true
+					}
+				}
+				for _, rel := range []string{d + "/hook", d + "-x/hook", d + ".sh", d + " x"} {
+					if !seen[rel] {
+						seen[rel] = true
+						files = append(files, c20file{rel, 0o755})
+					}
+				}
+			}
 		}
 		var expected []string
 		for _, f := range files {
